@@ -330,10 +330,19 @@ func ruleUnsubPrecond(c *Ctx) {
 			}) != nil
 		}
 		ok2 := false
+		onlyHeld := false
 		if ph, isPhi := b.Y.(*ssa.Phi); isPhi {
 			ok2 = true
+			live := liveBlocks(ph.Block().Parent())
+			asked := false
 			for k, e := range ph.Edges {
 				pred := ph.Block().Preds[k]
+				if live != nil && !live[pred] {
+					continue // statically dead edge (constant test)
+				}
+				if f, _ := fieldLoad(e); f != fDirect {
+					asked = true
+				}
 				if !bounded(e, pred.Instrs[len(pred.Instrs)-1]) {
 					// the edge may come straight from the test's own block
 					okEdge := false
@@ -355,8 +364,15 @@ func ruleUnsubPrecond(c *Ctx) {
 					}
 				}
 			}
+			if !asked {
+				onlyHeld = true
+			}
 		} else {
 			ok2 = bounded(b.Y, st)
+		}
+		if onlyHeld {
+			c.viol(fnName(st.Parent()), "the direct count is lowered by the count asked for when that many are held", p.InstrPos(st), "every live path lowers the direct count by all that is held, whatever count was asked for: one unsubscribe of a resource subscribed three times removes all three")
+			continue
 		}
 		c.check(ok2, fnName(st.Parent()), "the direct count is lowered by no more than is held", p.InstrPos(st), "subtrahend is the count itself, or bounded by a test against it",
 			"a late release (the request's own error path after unsubscribeDirect already took every direct count) drives the direct count negative while an indirect reference keeps the subscription alive: the next successful subscribe brings it to 0 and can never be unsubscribed")
